@@ -105,7 +105,8 @@ Accept(c) == /\ acc = "accept" /\ lis = "open" /\ c \in offered
              /\ offered' = offered \ {c} /\ cs' = [cs EXCEPT ![c] = "spawned"]
              /\ wg' = IF D("addInGoroutine") THEN wg ELSE wg + 1
              /\ gWg' = IF D("addInGoroutine") THEN gWg ELSE gWg + 1
-             /\ acc' = "poll"
+             \* the loop polls its context between accepts; with the defect "pollOnlyOnTimeout" only after an Accept that timed out
+             /\ acc' = IF D("pollOnlyOnTimeout") THEN "accept" ELSE "poll"
              /\ UNCHANGED << ctx, lis, armed, inp, gate, hgate, gAcc, pset, npk, sched >>
 CloseListener == /\ acc = "closing" /\ lis' = "closed"
                  /\ acc' = IF lis = "closed" /\ D("closeErrNoWait") THEN "returned" ELSE "waiting"
@@ -164,6 +165,12 @@ AtRestWhenReturned == (acc = "returned" /\ \A c \in Conns : ~Running(c)) => (wg 
 \* burst, once every connection of it has closed, it is back where it was
 GaugeTracksLive == gWg = Cardinality({ c \in Conns : Running(c) })
 AtRestWhenIdle == (\A c \in Conns : cs[c] \in {"none", "done"}) => (gWg = 0 /\ gAcc = 0 /\ wg = 0)
+\* the context is polled between accepts: a connection accepted under a cancelled context (Accept was already blocked when
+\* the cancellation came) is the last one - otherwise a steady arrival of connections keeps Serve from ever returning
+\* (the finite model cannot show that as a liveness failure: its connections run out)
+PollsContextBetweenAccepts ==
+   [][ /\ (ctx = "cancelled" /\ (\E c \in Conns : cs[c] # "spawned" /\ cs'[c] = "spawned")) => acc' = "poll"
+       /\ (ctx = "cancelled" /\ acc = "poll" /\ acc' # "poll") => acc' = "closing" ]_vars
 \* once cancelled, Serve returns (blocked reads reach their deadline, gates open)
 ShutdownCompletes == (ctx = "cancelled") ~> (acc = "returned")
 
